@@ -37,7 +37,7 @@ ASSUMPTIONS = [
     "'the end marker' = EI followed by a byte for which bytes.isspace() is true; inline data is written as ID<space>data<LF>EI<LF> and does not end in CR",
     "export formats limited to those that do not need Pillow (DCT pass-through, 1-bit / 8-bit gray / 8-bit RGB bitmaps)",
 ]
-PROBES = ["run under settings.STRICT", "page with shifted MediaBox or /Rotate", "one ImageWriter for two documents", "ASCII85 inline data contains EI + white space", "two inline images with the same data bytes", "dct data continues behind the EOI marker", "CR after ID and data starting with LF", "dct behind further filters", "same XObject drawn twice", "inline image ending at the ASCII85 marker", "inline image", "xobject image", "gray8", "rgb8", "1bit", "dct", "filter chain", "unfiltered", "row padding needed", "boundary placed in inline markers", "contents split after image", "inline data contains EI", "preexisting export name", "two images same name", "bmp exported", "jpg exported"]
+PROBES = ["samples begin with a magic number", "run under settings.STRICT", "page with shifted MediaBox or /Rotate", "one ImageWriter for two documents", "ASCII85 inline data contains EI + white space", "two inline images with the same data bytes", "dct data continues behind the EOI marker", "CR after ID and data starting with LF", "dct behind further filters", "same XObject drawn twice", "inline image ending at the ASCII85 marker", "inline image", "xobject image", "gray8", "rgb8", "1bit", "dct", "filter chain", "unfiltered", "row padding needed", "boundary placed in inline markers", "contents split after image", "inline data contains EI", "preexisting export name", "two images same name", "bmp exported", "jpg exported"]
 TIERS = {
     "quick": {"batches": 16, "runs": 450, "budget_s": 50},
     "thorough": {"batches": 128, "runs": 500, "budget_s": 1200},
@@ -102,6 +102,11 @@ def gen_image(t, ctx, idx):
             samples = bytes(t.pick(b"EI \n\rID\x00\xff", "px.evil") for _ in range(rowlen * h))
         else:
             samples = bytes((0xFF if (i // rowlen + i) % 2 else 0) for i in range(rowlen * h))
+        if t.coin(6, 100, "px.magic") and len(samples) >= 4:
+            # samples that begin like some file format's magic number are still samples
+            magic = t.pick([b"\xff\xd8\xff\xe0", b"\xff\xd8\xff", b"\x89PNG", b"BM", b"GIF8", b"\x00\x00\x00\x0cjP", b"%PDF"], "px.magicbytes")
+            samples = (magic + samples[len(magic) :])[: len(samples)]
+            ctx.probe("samples begin with a magic number")
         n = t.weighted([3, 4, 2], "chain.n")
         chain = [t.pick(FILTERS, "chain.f") for _ in range(n)]
         if inline and chain and chain[0] == "ASCII85Decode":
